@@ -160,6 +160,48 @@ func (r *run) checkC02(d *delivery, i int) {
 			power[k] = p.Combination.Power
 		}
 	}
+	// strengths from the independent evaluator whenever there is a showdown
+	// on a full board (the engine's own Power is what C10 judges)
+	if len(gs.Status.Board) == 5 && alive(gs) >= 2 {
+		vals := make([]handVal, n)
+		lenient := false
+		ok := true
+		for k, p := range gs.Players {
+			if p.Fold {
+				continue
+			}
+			sels := selections(p.HoleCards, gs.Status.Board, r.cfg.Req)
+			if len(sels) == 0 {
+				ok = false
+				break
+			}
+			best := evalFive(sels[0], r.cfg.Short)
+			for _, sel := range sels {
+				if r.cfg.Short && isShortAceLow(sel) {
+					lenient = true
+				}
+				if v := evalFive(sel, r.cfg.Short); best.less(v) {
+					best = v
+				}
+			}
+			vals[k] = best
+		}
+		if ok && !lenient {
+			for k := range gs.Players {
+				if fold[k] {
+					continue
+				}
+				rank := 1
+				for j := range gs.Players {
+					if j != k && !fold[j] && vals[j].less(vals[k]) {
+						rank++
+					}
+				}
+				power[k] = rank
+			}
+			r.probe("c02-independent-strengths")
+		}
+	}
 	changed := make([]int64, n)
 	got := make([]bool, n)
 	for _, pr := range gs.Result.Players {
